@@ -24,6 +24,7 @@ distinct = hash of F.",
     replay,
     exh: None,
     totality: true,
+    aggregate: None,
 };
 
 fn dz(data: &[u8], cap: usize) -> Result<Result<Vec<u8>, LibErr>, Caught> {
